@@ -774,3 +774,687 @@ Proof.
       * exists out. split; [exact Eo|exact Hs].
 Qed.
 End PairLoop.
+
+(* ---------------------------------------------------------------------------------------------- *)
+(* the run on a well-formed strict profile                                                         *)
+
+Lemma upd1 p x : NoDup p -> p <> [] -> last p 0%N = x ->
+  py_remove_if x (removelast p) = filter (fun a => negb (memN a [x])) p.
+Proof.
+  intros Hnd Hne El. rewrite (removelast_filter p 0%N Hnd Hne), El.
+  rewrite py_remove_if_filter by (now apply NoDup_filter). rewrite filter_filter.
+  apply filter_ext. intros a. unfold memN. simpl. rewrite orb_false_r. destruct (N.eqb a x); reflexivity.
+Qed.
+
+Lemma upd2 p x y : NoDup p -> p <> [] -> (last p 0%N = x \/ last p 0%N = y) ->
+  py_remove_if y (py_remove_if x (removelast p)) = filter (fun a => negb (memN a [x; y])) p.
+Proof.
+  intros Hnd Hne El. rewrite (removelast_filter p 0%N Hnd Hne).
+  rewrite (py_remove_if_filter x) by (now apply NoDup_filter).
+  rewrite (py_remove_if_filter y) by (now apply NoDup_filter, NoDup_filter). rewrite !filter_filter.
+  apply filter_ext. intros a. unfold memN. simpl. rewrite orb_false_r.
+  destruct El as [-> | ->]; destruct (N.eqb a x), (N.eqb a y); reflexivity.
+Qed.
+
+Section Main.
+Variable alts : list N.
+Variable prefs : list (list N).
+Hypothesis Hnd : NoDup alts.
+Hypothesis Hwf : forall v, In v prefs -> Permutation alts v.
+Hypothesis Hne : prefs <> [].
+
+Lemma vote_nodup v : In v prefs -> NoDup v.
+Proof. intros Hv. eapply Permutation_NoDup; [apply Hwf; exact Hv|exact Hnd]. Qed.
+Lemma vote_in v a : In v prefs -> (In a v <-> In a alts).
+Proof.
+  intros Hv. split; apply Permutation_in; [apply Permutation_sym|]; now apply Hwf.
+Qed.
+
+Definition OL (st : elo_state) : list N := st_tal st ++ st_left st.
+Definition placed (st : elo_state) : list N := OL st ++ st_right st.
+Definition RlP (P : list N) : list N := filter (unplaced P) alts.
+Definition Rl (st : elo_state) : list N := RlP (placed st).
+
+Lemma RlP_In P a : In a (RlP P) <-> In a alts /\ ~ In a P.
+Proof. unfold RlP. rewrite filter_In, unplaced_true. reflexivity. Qed.
+
+Lemma vote_filter_length P v : In v prefs -> length (filter (unplaced P) v) = length (RlP P).
+Proof. intros Hv. symmetry. apply Permutation_length. apply Permutation_filter. now apply Hwf. Qed.
+
+Lemma vote_filter_nonempty P v : In v prefs -> RlP P <> [] -> filter (unplaced P) v <> [].
+Proof.
+  intros Hv Hr E. apply Hr. apply length_zero_iff_nil. rewrite <- (vote_filter_length P v Hv), E. reflexivity.
+Qed.
+
+Definition lastR (P : list N) (v : list N) : N := last (filter (unplaced P) v) 0%N.
+
+Lemma lastR_props P v : In v prefs -> RlP P <> [] ->
+  In (lastR P v) alts /\ ~ In (lastR P v) P /\
+  forall r, In r alts -> ~ In r P -> r <> lastR P v -> better v r (lastR P v).
+Proof.
+  intros Hv Hr.
+  destruct (filter_last_worst (unplaced P) v (lastR P v) 0%N (vote_nodup v Hv)
+              (vote_filter_nonempty P v Hv Hr) eq_refl) as (H1 & H2 & H3).
+  split; [now apply (vote_in v)|]. split; [now apply unplaced_true|].
+  intros r Hra Hrp Hrn. apply H3; auto; [now apply (vote_in v)|now apply unplaced_true].
+Qed.
+
+(* geometry of the placed alternatives *)
+Definition Geo (ol or_ : list N) : Prop :=
+  NoDup (ol ++ or_) /\ incl (ol ++ or_) alts /\
+  forall v, In v prefs -> LC v ol (RlP (ol ++ or_)) or_.
+
+Lemma geo_add_left ol or_ x : Geo ol or_ -> In x alts -> ~ In x (ol ++ or_) ->
+  (forall v, In v prefs -> cond v ol x (RlP ((ol ++ [x]) ++ or_) ++ or_)) -> Geo (ol ++ [x]) or_.
+Proof.
+  intros (G1 & G2 & G3) Hx Hnx Hc.
+  assert (Hperm : Permutation ((ol ++ [x]) ++ or_) (x :: ol ++ or_)).
+  { rewrite <- app_assoc. simpl. apply Permutation_sym, Permutation_middle. }
+  split; [|split].
+  - eapply Permutation_NoDup; [apply Permutation_sym; exact Hperm|]. now constructor.
+  - intros a Ha. eapply Permutation_in in Ha; [|exact Hperm]. destruct Ha as [<-|Ha]; auto.
+  - intros v Hv. apply (LC_add_left v ol (RlP (ol ++ or_))); auto.
+    + intros d Hd. apply RlP_In in Hd. apply RlP_In. destruct Hd as [Hd1 Hd2]. split; [assumption|].
+      intros H. apply Hd2. eapply Permutation_in; [apply Permutation_sym; exact Hperm|]. now right.
+    + apply RlP_In. auto.
+Qed.
+
+Lemma geo_add_right ol or_ x : Geo ol or_ -> In x alts -> ~ In x (ol ++ or_) ->
+  (forall v, In v prefs -> cond v or_ x (ol ++ RlP (ol ++ x :: or_))) -> Geo ol (x :: or_).
+Proof.
+  intros (G1 & G2 & G3) Hx Hnx Hc.
+  assert (Hperm : Permutation (ol ++ x :: or_) (x :: ol ++ or_)).
+  { apply Permutation_sym, Permutation_middle. }
+  split; [|split].
+  - eapply Permutation_NoDup; [apply Permutation_sym; exact Hperm|]. now constructor.
+  - intros a Ha. eapply Permutation_in in Ha; [|exact Hperm]. destruct Ha as [<-|Ha]; auto.
+  - intros v Hv. apply (LC_add_right v ol (RlP (ol ++ or_))); auto.
+    + intros d Hd. apply RlP_In in Hd. apply RlP_In. destruct Hd as [Hd1 Hd2]. split; [assumption|].
+      intros H. apply Hd2. eapply Permutation_in; [apply Permutation_sym; exact Hperm|]. now right.
+    + apply RlP_In. auto.
+Qed.
+
+(* the working copies after a round that places the alternatives L *)
+Lemma sp_update P P' L : (forall a, In a P' <-> In a P \/ In a L) ->
+  map (filter (fun a => negb (memN a L))) (map (filter (unplaced P)) prefs) = map (filter (unplaced P')) prefs.
+Proof.
+  intros H. rewrite map_map. apply map_ext. intros v. rewrite filter_filter. apply filter_ext.
+  intros a. apply eq_true_iff_eq. rewrite andb_true_iff, negb_true_iff, !unplaced_true, memN_false, H. tauto.
+Qed.
+
+Lemma RlP_shrink P P' x : In x alts -> ~ In x P -> In x P' -> incl P P' -> length (RlP P') < length (RlP P).
+Proof.
+  intros Hx Hnx Hx' Hincl. unfold RlP. apply (filter_length_lt _ _ alts x); auto.
+  - now apply unplaced_true.
+  - apply not_true_is_false. intros H. apply unplaced_true in H. contradiction.
+  - intros a Ha. apply unplaced_true in Ha. apply unplaced_true. intros H. apply Ha. now apply Hincl.
+Qed.
+
+Record Core (st : elo_state) : Prop := {
+  c_run : st_is_SP st = true /\ st_end_flag st = false /\ st_axis st = None;
+  c_sp : st_prefs_SP st = map (filter (unplaced (placed st))) prefs;
+  c_geo : Geo (OL st) (st_right st) }.
+
+Record Ends (st : elo_state) : Prop := {
+  e_ends : match st_xi st, st_xj st with
+           | None, None => st_left st = [] /\ st_right st = []
+           | Some xi, Some xj => (exists l', st_left st = l' ++ [xi]) /\ (exists r', st_right st = xj :: r')
+           | _, _ => False
+           end;
+  e_N : forall xi xj, st_xi st = Some xi -> st_xj st = Some xj ->
+        forall v, In v prefs -> forall r, In r (Rl st) -> better v r xi \/ better v r xj;
+  e_T : st_xi st = None -> forall v, In v prefs -> forall t, In t (st_tal st) ->
+        forall r, In r (Rl st) -> better v r t }.
+
+(* comparing with the inner ends is enough: the rest of the side follows from LC *)
+Lemma above_xi_above_left v ol rl or_ l' xi r : LC v ol rl or_ -> ol = l' ++ [xi] -> In r rl ->
+  better v r xi -> forall p, In p ol -> better v r p.
+Proof.
+  intros [HL _] E Hr Hb p Hp. destruct (HL l' xi [] E) as [H|H].
+  - subst ol. apply in_app_or in Hp. destruct Hp as [Hp|[<-|[]]]; [|assumption].
+    specialize (H p Hp). unfold better in *. lia.
+  - exfalso. assert (Hin : In r ([] ++ rl ++ or_)) by (simpl; apply in_or_app; now left).
+    specialize (H r Hin). unfold better in *. lia.
+Qed.
+
+Lemma above_xj_above_right v ol rl or_ r' xj r : LC v ol rl or_ -> or_ = xj :: r' -> In r rl ->
+  better v r xj -> forall p, In p or_ -> better v r p.
+Proof.
+  intros [_ HR] E Hr Hb p Hp. destruct (HR [] xj r' E) as [H|H].
+  - subst or_. destruct Hp as [<-|Hp]; [assumption|]. specialize (H p Hp). unfold better in *. lia.
+  - exfalso. assert (Hin : In r (ol ++ rl ++ [])).
+    { apply in_or_app. right. apply in_or_app. now left. }
+    specialize (H r Hin). unfold better in *. lia.
+Qed.
+
+Lemma pop_facts st : Core st -> Rl st <> [] ->
+  exists lc, pop_all (st_prefs_SP st) [] = Ok (map (@removelast N) (st_prefs_SP st), lc) /\
+    NoDup lc /\ (forall v, In v prefs -> In (lastR (placed st) v) lc) /\
+    (forall x, In x lc -> exists v, In v prefs /\ lastR (placed st) v = x).
+Proof.
+  intros HC HR. rewrite (c_sp st HC).
+  destruct (pop_all_spec (map (filter (unplaced (placed st))) prefs) []) as (lc & E & _ & Hall & Hfrom & Hnd').
+  { intros p Hp. apply in_map_iff in Hp. destruct Hp as (v & <- & Hv). now apply vote_filter_nonempty. }
+  exists lc. split; [exact E|]. split; [apply Hnd'; constructor|]. split.
+  - intros v Hv. apply Hall. now apply in_map.
+  - intros x Hx. destruct (Hfrom x Hx) as [[]|(p & Hp & El)].
+    apply in_map_iff in Hp. destruct Hp as (v & <- & Hv). exists v. auto.
+Qed.
+
+Lemma ps2_single st x P' : Core st -> Rl st <> [] -> (forall v, In v prefs -> lastR (placed st) v = x) ->
+  (forall a, In a P' <-> In a (placed st) \/ a = x) ->
+  map (py_remove_if x) (map (@removelast N) (st_prefs_SP st)) = map (filter (unplaced P')) prefs.
+Proof.
+  intros HC HR Hl HP. rewrite <- (sp_update (placed st) P' [x]).
+  - rewrite (c_sp st HC), !map_map. apply map_ext_in. intros v Hv.
+    apply upd1; [apply NoDup_filter, vote_nodup; assumption|now apply vote_filter_nonempty|now apply Hl].
+  - intros a. rewrite HP. simpl. intuition.
+Qed.
+
+Lemma ps2_pair st x y P' : Core st -> Rl st <> [] ->
+  (forall v, In v prefs -> lastR (placed st) v = x \/ lastR (placed st) v = y) ->
+  (forall a, In a P' <-> In a (placed st) \/ a = x \/ a = y) ->
+  map (fun p => py_remove_if y (py_remove_if x p)) (map (@removelast N) (st_prefs_SP st))
+  = map (filter (unplaced P')) prefs.
+Proof.
+  intros HC HR Hl HP. rewrite <- (sp_update (placed st) P' [x; y]).
+  - rewrite (c_sp st HC), !map_map. apply map_ext_in. intros v Hv.
+    apply upd2; [apply NoDup_filter, vote_nodup; assumption|now apply vote_filter_nonempty|now apply Hl].
+  - intros a. rewrite HP. simpl. intuition.
+Qed.
+
+Lemma pair_place_spec st ps x y forced : x <> y -> FI0 forced x y ->
+  exists a b, is_perm2 a b x y /\ (funset forced x y \/ fset forced a b) /\
+    pair_place st ps x y forced =
+    mkElo (st_is_SP st) (st_end_flag st) (st_axis st) (b :: st_right st) (st_left st ++ [a])
+          (Some a) (Some b) (st_tal st) ps.
+Proof.
+  intros Hxy [[U1 U2]|[[F1 F2]|[F1 F2]]]; unfold pair_place.
+  - exists x, y. split; [left; auto|]. split; [left; split; assumption|].
+    rewrite U1, U2.
+    assert (G : fset (fp_set (fp_set forced x SLeft) y SRight) x y) by (now apply fset_after).
+    destruct G as [G1 G2]. rewrite G2, G1. reflexivity.
+  - exists x, y. split; [left; auto|]. split; [right; split; assumption|].
+    rewrite F1, F2, F1. reflexivity.
+  - exists y, x. split; [right; auto|]. split; [right; split; assumption|].
+    rewrite F2, F1, F2. reflexivity.
+Qed.
+
+Lemma placed_mid_perm tal left right v : In v prefs ->
+  NoDup ((tal ++ left) ++ right) -> incl ((tal ++ left) ++ right) alts ->
+  Permutation alts (tal ++ left ++ filter (not_placed tal left right) v ++ right).
+Proof.
+  intros Hv HndP Hincl.
+  set (P := (tal ++ left) ++ right).
+  assert (Enp : forall a, not_placed tal left right a = unplaced P a).
+  { intros a. unfold not_placed, unplaced, P. rewrite !memN_app.
+    destruct (memN a tal), (memN a left), (memN a right); reflexivity. }
+  eapply perm_trans; [apply (Hwf v Hv)|].
+  eapply perm_trans; [apply (filter_partition_perm (fun a => memN a P) v)|].
+  assert (E1 : Permutation (filter (fun a => memN a P) v) P).
+  { apply NoDup_Permutation; [apply NoDup_filter, vote_nodup; assumption|assumption|].
+    intros a. rewrite filter_In, memN_In. split; [tauto|]. intros Ha. split; [|assumption].
+    apply (vote_in v a Hv). now apply Hincl. }
+  assert (E2 : filter (fun a => negb (memN a P)) v = filter (not_placed tal left right) v).
+  { apply filter_ext. intros a. now rewrite Enp. }
+  rewrite E2. eapply perm_trans; [apply Permutation_app_tail; exact E1|]. unfold P.
+  rewrite <- !app_assoc. apply Permutation_app_head. apply Permutation_app_head. apply Permutation_app_comm.
+Qed.
+
+(* ---- one round ---- *)
+Definition Final2d (st' : elo_state) : Prop :=
+  st_is_SP st' = true /\ st_end_flag st' = true /\ st_prefs_SP st' <> [] /\
+  exists ax, st_axis st' = Some ax /\ sp_check_axis alts prefs ax = true.
+
+Definition Step (st st' : elo_state) : Prop :=
+  st_is_SP st' = false \/
+  (Core st' /\ (Rl st' <> [] -> Ends st') /\ length (Rl st') < length (Rl st)) \/
+  Final2d st'.
+
+Lemma core_left st st' x : Core st -> In x alts -> ~ In x (placed st) ->
+  st_is_SP st' = st_is_SP st -> st_end_flag st' = st_end_flag st -> st_axis st' = st_axis st ->
+  OL st' = OL st ++ [x] -> st_right st' = st_right st ->
+  st_prefs_SP st' = map (filter (unplaced (placed st'))) prefs ->
+  (forall v, In v prefs -> cond v (OL st) x (Rl st' ++ st_right st)) ->
+  Core st' /\ length (Rl st') < length (Rl st).
+Proof.
+  intros HC Hx Hnx E1 E2 E3 EOL ER Esp Hc. destruct (c_run st HC) as (R1 & R2 & R3). split.
+  - constructor.
+    + rewrite E1, E2, E3. auto.
+    + exact Esp.
+    + rewrite EOL, ER. apply geo_add_left; auto; [apply (c_geo st HC)|].
+      intros v Hv. specialize (Hc v Hv). unfold Rl, placed in Hc. rewrite EOL, ER in Hc. exact Hc.
+  - unfold Rl. apply (RlP_shrink _ _ x); auto.
+    + unfold placed. rewrite EOL, ER. apply in_or_app. left. apply in_or_app. right. now left.
+    + unfold placed. rewrite EOL, ER. intros a Ha. apply in_app_or in Ha. apply in_or_app.
+      destruct Ha as [Ha|Ha]; [left; apply in_or_app; now left|now right].
+Qed.
+
+Lemma core_right st st' x : Core st -> In x alts -> ~ In x (placed st) ->
+  st_is_SP st' = st_is_SP st -> st_end_flag st' = st_end_flag st -> st_axis st' = st_axis st ->
+  OL st' = OL st -> st_right st' = x :: st_right st ->
+  st_prefs_SP st' = map (filter (unplaced (placed st'))) prefs ->
+  (forall v, In v prefs -> cond v (st_right st) x (OL st ++ Rl st')) ->
+  Core st' /\ length (Rl st') < length (Rl st).
+Proof.
+  intros HC Hx Hnx E1 E2 E3 EOL ER Esp Hc. destruct (c_run st HC) as (R1 & R2 & R3). split.
+  - constructor.
+    + rewrite E1, E2, E3. auto.
+    + exact Esp.
+    + rewrite EOL, ER. apply geo_add_right; auto; [apply (c_geo st HC)|].
+      intros v Hv. specialize (Hc v Hv). unfold Rl, placed in Hc. rewrite EOL, ER in Hc. exact Hc.
+  - unfold Rl. apply (RlP_shrink _ _ x); auto.
+    + unfold placed. rewrite EOL, ER. apply in_or_app. right. now left.
+    + unfold placed. rewrite EOL, ER. intros a Ha. apply in_app_or in Ha. apply in_or_app.
+      destruct Ha as [Ha|Ha]; [now left|right; now right].
+Qed.
+
+Lemma core_pair st st' a b : Core st -> In a alts -> ~ In a (placed st) -> In b alts -> ~ In b (placed st) -> a <> b ->
+  st_is_SP st' = st_is_SP st -> st_end_flag st' = st_end_flag st -> st_axis st' = st_axis st ->
+  OL st' = OL st ++ [a] -> st_right st' = b :: st_right st ->
+  st_prefs_SP st' = map (filter (unplaced (placed st'))) prefs ->
+  (forall v, In v prefs -> (forall p, In p (OL st) -> better v a p) /\ (forall p, In p (st_right st) -> better v b p)) ->
+  Core st' /\ length (Rl st') < length (Rl st).
+Proof.
+  intros HC Ha Hna Hb Hnb Hab E1 E2 E3 EOL ER Esp Hc. destruct (c_run st HC) as (R1 & R2 & R3). split.
+  - constructor.
+    + rewrite E1, E2, E3. auto.
+    + exact Esp.
+    + rewrite EOL, ER. apply geo_add_right; auto.
+      * apply geo_add_left; auto; [apply (c_geo st HC)|]. intros v Hv. left. apply (Hc v Hv).
+      * intros H. rewrite <- app_assoc in H. apply in_app_or in H. destruct H as [H|H].
+        -- apply Hnb. apply in_or_app. now left.
+        -- simpl in H. destruct H as [H|H]; [congruence|]. apply Hnb. apply in_or_app. now right.
+      * intros v Hv. left. apply (Hc v Hv).
+  - unfold Rl. apply (RlP_shrink _ _ a); auto.
+    + unfold placed. rewrite EOL, ER. apply in_or_app. left. apply in_or_app. right. now left.
+    + unfold placed. rewrite EOL, ER. intros c Hc'. apply in_app_or in Hc'. apply in_or_app.
+      destruct Hc' as [Hc'|Hc']; [left; apply in_or_app; now left|right; now right].
+Qed.
+
+Lemma Rl_In st a : In a (Rl st) <-> In a alts /\ ~ In a (placed st).
+Proof. apply RlP_In. Qed.
+
+Lemma placed_incl st : Core st -> incl (placed st) alts.
+Proof. intros HC. destruct (c_geo st HC) as (_ & H & _). exact H. Qed.
+
+Lemma placed_nodup st : Core st -> NoDup (placed st).
+Proof. intros HC. destruct (c_geo st HC) as (H & _ & _). exact H. Qed.
+
+Lemma core_LC st v : Core st -> In v prefs -> LC v (OL st) (Rl st) (st_right st).
+Proof. intros HC Hv. destruct (c_geo st HC) as (_ & _ & H). now apply H. Qed.
+
+Lemma py_first_prefs P : exists v0, In v0 prefs /\
+  py_first (map (filter (unplaced P)) prefs) = Ok (filter (unplaced P) v0).
+Proof. destruct prefs as [|v0 rest]; [congruence|]. exists v0. split; [now left|reflexivity]. Qed.
+
+Theorem round_ok st : Core st -> Ends st -> Rl st <> [] ->
+  exists st', elo_round prefs st = Ok st' /\ Step st st'.
+Proof.
+  intros HC HE HR. destruct (c_run st HC) as (R1 & R2 & R3).
+  destruct (pop_facts st HC HR) as (lc & Epop & Hlcnd & Hall & Hfrom).
+  assert (Hlcprop : forall x, In x lc -> In x alts /\ ~ In x (placed st)).
+  { intros x Hx. destruct (Hfrom x Hx) as (v & Hv & <-).
+    destruct (lastR_props (placed st) v Hv HR) as (A & B & _). auto. }
+  assert (Hworst : forall v, In v prefs -> forall r, In r alts -> ~ In r (placed st) ->
+            r <> lastR (placed st) v -> better v r (lastR (placed st) v)).
+  { intros v Hv. destruct (lastR_props (placed st) v Hv HR) as (_ & _ & H). exact H. }
+  unfold elo_round. rewrite Epop. cbn [rbind].
+  destruct lc as [|x [|y [|z lc']]].
+  - (* no last candidate: impossible, there is a voter *)
+    exfalso. destruct prefs as [|v0 rest]; [congruence|]. apply (Hall v0 (or_introl eq_refl)).
+  - (* ---------------- one last candidate ---------------- *)
+    cbn [length Nat.leb].
+    assert (Hlast : forall v, In v prefs -> lastR (placed st) v = x).
+    { intros v Hv. destruct (Hall v Hv) as [E|[]]. now symmetry. }
+    destruct (Hlcprop x (or_introl eq_refl)) as [Hxa Hxn].
+    assert (Hbx : forall v, In v prefs -> forall r, In r alts -> ~ In r (placed st) -> r <> x -> better v r x).
+    { intros v Hv r Hr1 Hr2 Hr3. rewrite <- (Hlast v Hv). apply Hworst; auto. now rewrite (Hlast v Hv). }
+    assert (HxR : In x (Rl st)) by (apply Rl_In; auto).
+    destruct (st_xi st) as [xi0|] eqn:Exi.
+    + (* the two ends are open *)
+      pose proof (e_ends st HE) as Hends. rewrite Exi in Hends.
+      destruct (st_xj st) as [xj0|] eqn:Exj; [|contradiction].
+      destruct Hends as [(l' & El) (r' & Er)].
+      assert (Hps2 : forall P', (forall a, In a P' <-> In a (placed st) \/ a = x) ->
+                map (py_remove_if x) (map (@removelast N) (st_prefs_SP st)) = map (filter (unplaced P')) prefs).
+      { intros P' HP'. now apply ps2_single. }
+      assert (EOL : OL st = (st_tal st ++ l') ++ [xi0]).
+      { unfold OL. rewrite El. now rewrite app_assoc. }
+      assert (Hxi_in : In xi0 (placed st)).
+      { unfold placed. rewrite EOL. apply in_or_app. left. apply in_or_app. right. now left. }
+      assert (Hxj_in : In xj0 (placed st)).
+      { unfold placed. rewrite Er. apply in_or_app. right. now left. }
+      assert (HN : forall v, In v prefs -> better v x xi0 \/ better v x xj0).
+      { intros v Hv. apply (e_N st HE xi0 xj0 Exi Exj v Hv x HxR). }
+      assert (Hleft_all : forall v, In v prefs -> better v x xi0 -> forall p, In p (OL st) -> better v x p).
+      { intros v Hv Hb. eapply above_xi_above_left; [apply (core_LC st v HC Hv)|exact EOL|exact HxR|exact Hb]. }
+      assert (Hright_all : forall v, In v prefs -> better v x xj0 -> forall p, In p (st_right st) -> better v x p).
+      { intros v Hv Hb. eapply above_xj_above_right; [apply (core_LC st v HC Hv)|exact Er|exact HxR|exact Hb]. }
+      (* the state when x goes to the left, and when x goes to the right *)
+      set (P'L := (st_tal st ++ (st_left st ++ [x])) ++ st_right st).
+      assert (HP'L : forall a, In a P'L <-> In a (placed st) \/ a = x).
+      { intros a. unfold P'L, placed, OL. rewrite !in_app_iff. simpl. intuition (subst; auto). }
+      set (P'R := (st_tal st ++ st_left st) ++ x :: st_right st).
+      assert (HP'R : forall a, In a P'R <-> In a (placed st) \/ a = x).
+      { intros a. unfold P'R, placed, OL. rewrite !in_app_iff. simpl. intuition (subst; auto). }
+      rewrite (Hps2 P'L HP'L).
+      destruct (py_first_prefs P'L) as (v0 & Hv0 & Efirst). rewrite Efirst. cbn [rbind].
+      rewrite (vote_filter_length P'L v0 Hv0).
+      destruct (length (RlP P'L) =? 0) eqn:Elen.
+      * (* the last candidate: goes between the two ends *)
+        apply Nat.eqb_eq in Elen. apply length_zero_iff_nil in Elen.
+        eexists. split; [reflexivity|]. right. left.
+        match goal with |- Core ?s /\ _ /\ _ => set (st' := s) end.
+        assert (Epl : placed st' = P'L) by reflexivity.
+        destruct (core_left st st' x HC Hxa Hxn) as [HC' Hlt]; try reflexivity.
+        { unfold OL. simpl. now rewrite app_assoc. }
+        { intros v Hv. unfold Rl. rewrite Epl, Elen. simpl.
+          destruct (HN v Hv) as [Hb|Hb]; [left; now apply Hleft_all|right; now apply Hright_all]. }
+        split; [exact HC'|]. split; [|exact Hlt].
+        intros Hcontra. exfalso. apply Hcontra. unfold Rl. now rewrite Epl.
+      * (* the loop over the voters *)
+        assert (Hvok : forall v, In v prefs -> voter_ok x xi0 xj0 v).
+        { intros v Hv. repeat split.
+          - now apply (vote_in v).
+          - apply (vote_in v); [assumption|]. now apply (placed_incl st HC).
+          - apply (vote_in v); [assumption|]. now apply (placed_incl st HC).
+          - intros ->. contradiction.
+          - intros ->. contradiction.
+          - intros ->. pose proof (placed_nodup st HC) as Hnd'. unfold placed in Hnd'.
+            eapply NoDup_app_disj; [exact Hnd'| |rewrite Er; now left].
+            rewrite EOL. apply in_or_app. right. now left.
+          - now apply HN. }
+        destruct (single_loop_spec x xi0 xj0 prefs 0) as (c & contra & Eloop & Hf & Ht); [lia|exact Hvok|].
+        rewrite Eloop. cbn [rbind]. destruct contra.
+        -- eexists. split; [reflexivity|]. left. reflexivity.
+        -- destruct (Hf eq_refl) as (Hc2 & _ & Hgoodv & _).
+           destruct (c =? 2) eqn:Ec.
+           ++ (* to the right *)
+              apply Nat.eqb_eq in Ec. subst c.
+              eexists. split; [reflexivity|]. right. left.
+              match goal with |- Core ?s /\ _ /\ _ => set (st' := s) end.
+              assert (Epl : placed st' = P'R) by reflexivity.
+              assert (Esp' : map (filter (unplaced P'L)) prefs = map (filter (unplaced P'R)) prefs).
+              { apply map_ext. intros v. apply filter_ext. intros a.
+                rewrite (unplaced_insert _ _ x HP'L), (unplaced_insert _ _ x HP'R). reflexivity. }
+              destruct (core_right st st' x HC Hxa Hxn) as [HC' Hlt]; try reflexivity.
+              { rewrite Epl. exact Esp'. }
+              { intros v Hv. left. apply Hright_all; [assumption|]. apply (Hgoodv v Hv). reflexivity. }
+              split; [exact HC'|]. split; [|exact Hlt]. intros _. constructor.
+              ** simpl. split; [exists l'; exact El|exists (st_right st); reflexivity].
+              ** simpl. intros xi1 xj1 E1 E2 v Hv r Hr. injection E2 as <-. right.
+                 apply Rl_In in Hr. destruct Hr as [Hr1 Hr2]. rewrite Epl in Hr2.
+                 apply Hbx; auto; intros H; apply Hr2; apply HP'R; auto.
+              ** simpl. discriminate.
+           ++ (* to the left *)
+              apply Nat.eqb_neq in Ec.
+              eexists. split; [reflexivity|]. right. left.
+              match goal with |- Core ?s /\ _ /\ _ => set (st' := s) end.
+              assert (Epl : placed st' = P'L) by reflexivity.
+              destruct (core_left st st' x HC Hxa Hxn) as [HC' Hlt]; try reflexivity.
+              { unfold OL. simpl. now rewrite app_assoc. }
+                    { intros v Hv. left. apply Hleft_all; [assumption|]. apply (Hgoodv v Hv). exact Ec. }
+              split; [exact HC'|]. split; [|exact Hlt]. intros _. constructor.
+              ** simpl. split; [exists (st_left st); reflexivity|exists r'; exact Er].
+              ** simpl. intros xi1 xj1 E1 E2 v Hv r Hr. injection E1 as <-. left.
+                 apply Rl_In in Hr. destruct Hr as [Hr1 Hr2]. rewrite Epl in Hr2.
+                 apply Hbx; auto; intros H; apply Hr2; apply HP'L; auto.
+              ** simpl. discriminate.
+    + (* x_i is None: x joins to_append_left *)
+      pose proof (e_ends st HE) as Hends. rewrite Exi in Hends.
+      destruct (st_xj st) as [xj0|] eqn:Exj; [contradiction|]. destruct Hends as [El Er].
+      set (P' := ((st_tal st ++ [x]) ++ st_left st) ++ st_right st).
+      assert (HP' : forall a, In a P' <-> In a (placed st) \/ a = x).
+      { intros a. unfold P', placed, OL. rewrite !in_app_iff. simpl. intuition (subst; auto). }
+      rewrite (ps2_single st x P' HC HR Hlast HP').
+      eexists. split; [reflexivity|]. right. left.
+      match goal with |- Core ?s /\ _ /\ _ => set (st' := s) end.
+      assert (Epl : placed st' = P') by reflexivity.
+      destruct (core_left st st' x HC Hxa Hxn) as [HC' Hlt]; try reflexivity.
+      { unfold OL. simpl. rewrite El, !app_nil_r. reflexivity. }
+      { intros v Hv. left. intros p Hp. unfold OL in Hp. rewrite El, app_nil_r in Hp.
+        apply (e_T st HE Exi v Hv p Hp x HxR). }
+      split; [exact HC'|]. split; [|exact Hlt]. intros _. constructor.
+      * simpl. auto.
+      * simpl. discriminate.
+      * simpl. intros _ v Hv t Ht r Hr. apply Rl_In in Hr. destruct Hr as [Hr1 Hr2]. rewrite Epl in Hr2.
+        assert (Hr3 : ~ In r (placed st)) by (intros H; apply Hr2; apply HP'; auto).
+        assert (Hr4 : r <> x) by (intros H; apply Hr2; apply HP'; auto).
+        apply in_app_or in Ht. destruct Ht as [Ht|[<-|[]]].
+        -- apply (e_T st HE Exi v Hv t Ht r). apply Rl_In. auto.
+        -- now apply Hbx.
+  - (* ---------------- two last candidates ---------------- *)
+    cbn [length Nat.leb].
+    assert (Hxy : x <> y).
+    { inversion Hlcnd as [|? ? Hn _]; subst. intros ->. apply Hn. now left. }
+    assert (Hlast : forall v, In v prefs -> lastR (placed st) v = x \/ lastR (placed st) v = y).
+    { intros v Hv. destruct (Hall v Hv) as [E|[E|[]]]; auto. }
+    destruct (Hlcprop x (or_introl eq_refl)) as [Hxa Hxn].
+    destruct (Hlcprop y (or_intror (or_introl eq_refl))) as [Hya Hyn].
+    assert (HxR : In x (Rl st)) by (apply Rl_In; auto).
+    assert (HyR : In y (Rl st)) by (apply Rl_In; auto).
+    assert (Hbxy : forall v, In v prefs -> forall r, In r alts -> ~ In r (placed st) -> r <> x -> r <> y ->
+              better v r x \/ better v r y).
+    { intros v Hv r Hr1 Hr2 Hr3 Hr4. destruct (Hlast v Hv) as [E|E]; [left|right]; rewrite <- E;
+        apply Hworst; auto; rewrite E; assumption. }
+    assert (Hps2 : forall P', (forall a, In a P' <-> In a (placed st) \/ a = x \/ a = y) ->
+              map (fun p => py_remove_if y (py_remove_if x p)) (map (@removelast N) (st_prefs_SP st))
+              = map (filter (unplaced P')) prefs).
+    { intros P' HP'. now apply ps2_pair. }
+    destruct (st_xi st) as [xi0|] eqn:Exi.
+    + pose proof (e_ends st HE) as Hends. rewrite Exi in Hends.
+      destruct (st_xj st) as [xj0|] eqn:Exj; [|contradiction].
+      destruct Hends as [(l' & El) (r' & Er)].
+      assert (EOL : OL st = (st_tal st ++ l') ++ [xi0]).
+      { unfold OL. rewrite El. now rewrite app_assoc. }
+      assert (Hxi_in : In xi0 (placed st)).
+      { unfold placed. rewrite EOL. apply in_or_app. left. apply in_or_app. right. now left. }
+      assert (Hxj_in : In xj0 (placed st)).
+      { unfold placed. rewrite Er. apply in_or_app. right. now left. }
+      assert (Hxij : xi0 <> xj0).
+      { intros ->. pose proof (placed_nodup st HC) as Hnd'. unfold placed in Hnd'.
+        eapply NoDup_app_disj; [exact Hnd'| |rewrite Er; now left].
+        rewrite EOL. apply in_or_app. right. now left. }
+      assert (Hpok : forall v, In v prefs -> pvoter_ok xi0 xj0 x y v).
+      { intros v Hv. repeat split; try (now apply (vote_in v));
+          try (apply (vote_in v); [assumption|]; now apply (placed_incl st HC));
+          try (intros ->; contradiction); try assumption.
+        - apply (e_N st HE xi0 xj0 Exi Exj v Hv x HxR).
+        - apply (e_N st HE xi0 xj0 Exi Exj v Hv y HyR). }
+      destruct (pair_loop_spec prefs (st_tal st) (st_left st) (st_right st) xi0 xj0 prefs (fun _ _ => False) x y [])
+        as (out & Eloop & Hspec); auto.
+      { left. split; reflexivity. }
+      { intros a b _ [H _]. discriminate. }
+      rewrite Eloop. cbn [rbind]. destruct out as [x' y' forced'| |ax ok].
+      * (* the two candidates are placed *)
+        simpl in Hspec. destruct Hspec as (Hp' & HFI' & _ & Hun & Hgood & _).
+        assert (Hxy' : x' <> y') by (destruct Hp' as [[-> ->]|[-> ->]]; congruence).
+        assert (HFI'' : FI0 forced' x' y').
+        { destruct Hp' as [[-> ->]|[-> ->]]; [assumption|now apply FI0_sym]. }
+        destruct (pair_place_spec st (map (fun p => py_remove_if y (py_remove_if x p)) (map (@removelast N) (st_prefs_SP st)))
+                    x' y' forced' Hxy' HFI'') as (a & b & Hab' & Hwhy & Eplace).
+        assert (Hab : is_perm2 a b x y).
+        { destruct Hp' as [[-> ->]|[-> ->]]; [assumption|]. unfold is_perm2 in *. tauto. }
+        assert (Hgoodab : forall v, In v prefs -> good xi0 xj0 v a b).
+        { intros v Hv. destruct Hwhy as [Hu|Hf].
+          - assert (Hu' : funset forced' x y).
+            { destruct Hp' as [[-> ->]|[-> ->]]; [assumption|]. destruct Hu. split; assumption. }
+            destruct (Hun Hu' v Hv) as [G1 G2]. destruct Hab as [[-> ->]|[-> ->]]; assumption.
+          - apply (Hgood a b Hab Hf v Hv). }
+        assert (Ha : In a alts /\ ~ In a (placed st) /\ In a (Rl st)).
+        { destruct Hab as [[-> ->]|[-> ->]]; auto. }
+        assert (Hb : In b alts /\ ~ In b (placed st) /\ In b (Rl st)).
+        { destruct Hab as [[-> ->]|[-> ->]]; auto. }
+        assert (Hanb : a <> b) by (destruct Hab as [[-> ->]|[-> ->]]; congruence).
+        destruct Ha as (Ha1 & Ha2 & Ha3). destruct Hb as (Hb1 & Hb2 & Hb3).
+        set (P' := (st_tal st ++ (st_left st ++ [a])) ++ b :: st_right st).
+        assert (HP' : forall c, In c P' <-> In c (placed st) \/ c = x \/ c = y).
+        { intros c. unfold P', placed, OL. rewrite !in_app_iff. simpl. rewrite ?in_app_iff. simpl.
+          destruct Hab as [[-> ->]|[-> ->]]; intuition (subst; auto). }
+        rewrite Eplace, (Hps2 P' HP').
+        eexists. split; [reflexivity|]. right. left.
+        match goal with |- Core ?s /\ _ /\ _ => set (st' := s) end.
+        assert (Epl : placed st' = P') by reflexivity.
+        destruct (core_pair st st' a b HC Ha1 Ha2 Hb1 Hb2 Hanb) as [HC' Hlt]; try reflexivity.
+        { unfold OL. simpl. now rewrite app_assoc. }
+        { intros v Hv. destruct (Hgoodab v Hv) as [G1 G2]. split.
+          - eapply above_xi_above_left; [apply (core_LC st v HC Hv)|exact EOL|exact Ha3|exact G1].
+          - eapply above_xj_above_right; [apply (core_LC st v HC Hv)|exact Er|exact Hb3|exact G2]. }
+        split; [exact HC'|]. split; [|exact Hlt]. intros _. constructor.
+        -- simpl. split; [exists (st_left st); reflexivity|exists (st_right st); reflexivity].
+        -- simpl. intros xi1 xj1 E1 E2 v Hv r Hr. injection E1 as <-. injection E2 as <-.
+           apply Rl_In in Hr. destruct Hr as [Hr1 Hr2]. rewrite Epl in Hr2.
+           assert (Hr3 : ~ In r (placed st)) by (intros H; apply Hr2; apply HP'; auto).
+           assert (Hr4 : r <> x) by (intros H; apply Hr2; apply HP'; auto).
+           assert (Hr5 : r <> y) by (intros H; apply Hr2; apply HP'; auto).
+           destruct (Hbxy v Hv r Hr1 Hr3 Hr4 Hr5) as [H|H]; destruct Hab as [[-> ->]|[-> ->]]; auto.
+        -- simpl. discriminate.
+      * eexists. split; [reflexivity|]. left. reflexivity.
+      * (* case 2.(d): the candidate axis has been tested *)
+        simpl in Hspec. destruct Hspec as (Eok & v & z & w & Hv & _ & Hax).
+        eexists. split; [reflexivity|]. destruct ok eqn:Eokv; [|left; reflexivity].
+        right. right. split; [reflexivity|]. split; [reflexivity|]. split.
+        { simpl. rewrite (c_sp st HC). destruct prefs; [congruence|discriminate]. }
+        exists ax. split; [reflexivity|].
+        unfold sp_check_axis, spw_check_axis. rewrite <- Eok. rewrite andb_true_r.
+        apply valid_axis_correct; [exact Hnd|].
+        pose proof (placed_nodup st HC) as HndP. pose proof (placed_incl st HC) as HinP.
+        unfold placed, OL in HndP, HinP.
+        destruct Hax as [[_ ->]|[_ ->]].
+        -- now apply placed_mid_perm.
+        -- eapply perm_trans; [apply (placed_mid_perm (st_tal st) (st_left st) (st_right st) v Hv HndP HinP)|].
+           apply Permutation_app_head, Permutation_app_head, Permutation_app_tail, Permutation_rev.
+    + (* first pair: opens the two ends *)
+      pose proof (e_ends st HE) as Hends. rewrite Exi in Hends.
+      destruct (st_xj st) as [xj0|] eqn:Exj; [contradiction|]. destruct Hends as [El Er].
+      set (P' := (st_tal st ++ (st_left st ++ [x])) ++ y :: st_right st).
+      assert (HP' : forall c, In c P' <-> In c (placed st) \/ c = x \/ c = y).
+      { intros c. unfold P', placed, OL. rewrite !in_app_iff. simpl. rewrite ?in_app_iff. simpl. intuition (subst; auto). }
+      rewrite (Hps2 P' HP').
+      eexists. split; [reflexivity|]. right. left.
+      match goal with |- Core ?s /\ _ /\ _ => set (st' := s) end.
+      assert (Epl : placed st' = P') by reflexivity.
+      destruct (core_pair st st' x y HC Hxa Hxn Hya Hyn Hxy) as [HC' Hlt]; try reflexivity.
+      { unfold OL. simpl. now rewrite app_assoc. }
+      { intros v Hv. split.
+        - intros p Hp. unfold OL in Hp. rewrite El, app_nil_r in Hp. apply (e_T st HE Exi v Hv p Hp x HxR).
+        - rewrite Er. intros p []. }
+      split; [exact HC'|]. split; [|exact Hlt]. intros _. constructor.
+      * simpl. split; [exists (st_left st); reflexivity|exists (st_right st); reflexivity].
+      * simpl. intros xi1 xj1 E1 E2 v Hv r Hr. injection E1 as <-. injection E2 as <-.
+        apply Rl_In in Hr. destruct Hr as [Hr1 Hr2]. rewrite Epl in Hr2.
+        assert (Hr3 : ~ In r (placed st)) by (intros H; apply Hr2; apply HP'; auto).
+        assert (Hr4 : r <> x) by (intros H; apply Hr2; apply HP'; auto).
+        assert (Hr5 : r <> y) by (intros H; apply Hr2; apply HP'; auto).
+        apply (Hbxy v Hv r Hr1 Hr3 Hr4 Hr5).
+      * simpl. discriminate.
+  - (* ---------------- three or more last candidates ---------------- *)
+    cbn [length Nat.leb]. eexists. split; [reflexivity|]. left. reflexivity.
+Qed.
+
+(* ---- the whole loop ---- *)
+Lemma core_final st : Core st -> Rl st = [] ->
+  sp_check_axis alts prefs (st_tal st ++ st_left st ++ st_right st) = true.
+Proof.
+  intros HC HR. rewrite app_assoc. change ((st_tal st ++ st_left st) ++ st_right st) with (placed st).
+  pose proof (placed_nodup st HC) as HndP. pose proof (placed_incl st HC) as HinP.
+  unfold sp_check_axis, spw_check_axis. apply andb_true_iff. split.
+  - apply valid_axis_correct; [exact Hnd|]. apply NoDup_Permutation; auto.
+    intros a. split; [|apply HinP]. intros Ha.
+    destruct (in_dec N.eq_dec a (placed st)) as [H|H]; [assumption|].
+    exfalso. assert (Hin : In a (Rl st)) by (apply Rl_In; auto). rewrite HR in Hin. contradiction.
+  - unfold sp_axis_profile. apply forallb_forall. intros o Ho. apply in_map_iff in Ho.
+    destruct Ho as (v & <- & Hv). apply valley_sp_axis_weak. unfold placed.
+    apply LC_valley; [exact HndP|]. pose proof (core_LC st v HC Hv) as H. rewrite HR in H. exact H.
+Qed.
+
+Definition FinalOK (st' : elo_state) : Prop :=
+  st_is_SP st' = false \/ exists ax, elo_result st' = (true, ax) /\ sp_check_axis alts prefs ax = true.
+
+Lemma loop_ok fuel : forall st, Core st -> (Rl st <> [] -> Ends st) -> length (Rl st) <= fuel ->
+  exists st', elo_loop fuel prefs st = Ok st' /\ FinalOK st'.
+Proof.
+  induction fuel as [|f IH]; intros st HC HE Hlen.
+  - destruct (c_run st HC) as (R1 & R2 & R3).
+    assert (HR : Rl st = []) by (apply length_zero_iff_nil; lia).
+    exists st. split.
+    + simpl. rewrite R1. simpl. rewrite (c_sp st HC).
+      destruct (py_first_prefs (placed st)) as (v0 & Hv0 & ->). cbn [rbind].
+      rewrite (vote_filter_length _ v0 Hv0). fold (Rl st). rewrite HR. reflexivity.
+    + right. exists (st_tal st ++ st_left st ++ st_right st). split; [|now apply core_final].
+      unfold elo_result. now rewrite R1, R3.
+  - destruct (c_run st HC) as (R1 & R2 & R3).
+    cbn [elo_loop]. rewrite R1. cbn [negb]. rewrite (c_sp st HC).
+    destruct (py_first_prefs (placed st)) as (v0 & Hv0 & ->). cbn [rbind].
+    rewrite (vote_filter_length _ v0 Hv0). fold (Rl st). rewrite R2. cbn [negb]. rewrite andb_true_r.
+    destruct (Rl st) as [|r0 rl0] eqn:ER.
+    + exists st. split; [reflexivity|]. right. exists (st_tal st ++ st_left st ++ st_right st).
+      split; [|now apply core_final]. unfold elo_result. now rewrite R1, R3.
+    + cbn [length Nat.leb].
+      assert (HR : Rl st <> []) by (rewrite ER; discriminate).
+      destruct (round_ok st HC (HE ltac:(discriminate)) HR) as (st' & Eround & [Hfalse|[(HC' & HE' & Hlt)|Hfin]]).
+      * rewrite Eround. cbn [rbind]. exists st'. split; [|now left].
+        destruct f; simpl; rewrite Hfalse; reflexivity.
+      * rewrite Eround. cbn [rbind]. apply IH; auto. rewrite ER in Hlt. simpl in Hlt, Hlen. lia.
+      * rewrite Eround. cbn [rbind]. destruct Hfin as (F1 & F2 & F3 & ax & F4 & F5).
+        exists st'. split.
+        -- destruct (st_prefs_SP st') as [|p0 ps] eqn:Eps; [congruence|].
+           destruct f; simpl; rewrite F1, Eps, F2; simpl; rewrite andb_false_r; reflexivity.
+        -- right. exists ax. split; [|assumption]. unfold elo_result. now rewrite F1, F4.
+Qed.
+
+Lemma core_init : Core (elo_init prefs) /\ Ends (elo_init prefs) /\ Rl (elo_init prefs) = alts.
+Proof.
+  assert (HRl : Rl (elo_init prefs) = alts).
+  { unfold Rl, RlP, placed, OL. simpl. apply filter_all_true. intros b _. reflexivity. }
+  split; [|split; [|exact HRl]].
+  - constructor.
+    + simpl. auto.
+    + unfold placed, OL. simpl. rewrite <- (map_id prefs) at 1. apply map_ext. intros v.
+      symmetry. apply filter_all_true. intros b _. reflexivity.
+    + unfold OL. simpl. split; [constructor|]. split; [intros a []|].
+      intros v Hv. split; intros pre c post E; destruct pre; discriminate.
+  - constructor.
+    + simpl. auto.
+    + simpl. discriminate.
+    + simpl. intros _ v Hv t [].
+Qed.
+
+Theorem elo_total : exists b ax, elo alts prefs = Ok (b, ax) /\ (b = true -> sp_check_axis alts prefs ax = true).
+Proof.
+  destruct core_init as (HC & HE & HR).
+  destruct (loop_ok (length alts) (elo_init prefs) HC (fun _ => HE)) as (st' & E & Hfin).
+  { rewrite HR. lia. }
+  unfold elo, elo_run. rewrite E. cbn [rmap].
+  destruct Hfin as [Hf|(ax & Er & Hs)].
+  - exists false, []. split; [unfold elo_result; now rewrite Hf|discriminate].
+  - exists true, ax. split; [now rewrite Er|auto].
+Qed.
+End Main.
+
+(* ---------------------------------------------------------------------------------------------- *)
+(* theorems in closed form                                                                         *)
+
+Definition wf_strict_profile (alts : list N) (prefs : list (list N)) : Prop :=
+  NoDup alts /\ Forall (fun v => Permutation alts v) prefs /\ prefs <> [].
+
+Theorem elo_terminates alts prefs : wf_strict_profile alts prefs -> elo alts prefs <> Err OutOfFuel.
+Proof.
+  intros (H1 & H2 & H3). rewrite Forall_forall in H2.
+  destruct (elo_total alts prefs H1 H2 H3) as (b & ax & E & _). rewrite E. discriminate.
+Qed.
+
+Theorem elo_no_error alts prefs : wf_strict_profile alts prefs -> exists b ax, elo alts prefs = Ok (b, ax).
+Proof.
+  intros (H1 & H2 & H3). rewrite Forall_forall in H2.
+  destruct (elo_total alts prefs H1 H2 H3) as (b & ax & E & _). eauto.
+Qed.
+
+Theorem elo_sound alts prefs ax : wf_strict_profile alts prefs ->
+  elo alts prefs = Ok (true, ax) -> sp_check_axis alts prefs ax = true.
+Proof.
+  intros (H1 & H2 & H3) E. rewrite Forall_forall in H2.
+  destruct (elo_total alts prefs H1 H2 H3) as (b & ax' & E' & Hs). rewrite E in E'.
+  injection E' as <- <-. now apply Hs.
+Qed.
